@@ -9,7 +9,7 @@ From RX.Model Require Import Base CharClass Stream Tokenizer.
 From RX.Spec Require Cst Chars CstU CstNs CstEnt.
 From RX.Spec Require Import CstFull CstFullS5.
 From RX.Proofs Require Import Tactics CstLex CstULex.
-From RX.Proofs Require RejectProofs CharTablesProofs.
+From RX.Proofs Require RejectProofs CharTablesProofs DeclBodyLex.
 From RX.Proofs Require Import CstSound CstSoundLex CstSoundU CstSoundULex CstSoundT CstSoundTLex CstSoundN CstSoundNLex CstSoundNText.
 From RX.Proofs Require Import CstSoundP CstSoundPEnt CstSoundPLex.
 Open Scope N_scope.
@@ -174,24 +174,19 @@ Definition mk_of (kw : bytes) : option mkind :=
 
 (* a skipped declaration *)
 Lemma inv_consume_decl k q l s' : WV q (kw_of k ++ l) -> consume_decl text (st q (kw_of k ++ l)) = Ok s' ->
-  exists body l', l = utf8s body ++ [62] ++ l' /\ forallb (fun x => Chars.scalar x && negb (x =? 62)) body = true /\
+  exists body l', l = utf8s body ++ [62] ++ l' /\ forallb Chars.scalar body = true /\ decl_body_ok body = true /\
     s' = st (q + blen (kw_of k) + blen (utf8s body) + 1) l' /\ WV (q + blen (kw_of k) + blen (utf8s body) + 1) l'.
 Proof.
-  intros HW H. unfold consume_decl in H.
-  destruct (skip_bytes_inv text (fun x => negb (x =? 62)) q _ (WV_W _ _ _ HW)) as (x & l1 & E & Hx & _ & Esk). rewrite Esk in H.
-  assert (HWx : W (q + blen x) l1) by (rewrite E in HW; apply (W_app text _ _ _ (WV_W _ _ _ HW))).
-  destruct (consume_byte_inv text _ _ _ _ HWx H) as (l' & -> & -> & _).
-  assert (Hk : Forall (fun y => y <> 62) (kw_of k)) by (destruct k; repeat constructor; lia).
-  destruct (prefix_before 62 _ _ _ _ E Hk) as (body & -> & ->).
+  intros HW H.
+  destruct (DeclBodyLex.consume_decl_inv text _ _ _ (WV_W _ _ _ HW) H) as (x & l' & E & Hx & -> & _).
+  destruct (DeclBodyLex.plain_prefix _ _ _ _ (DeclBodyLex.kw_plain k) E Hx) as (body & -> & -> & Hb).
   assert (Hkv : U8.Valid (kw_of k)) by (destruct k; apply Valid_lit; reflexivity).
   pose proof (WV_app text _ _ _ HW Hkv) as HW1.
   pose proof (valid_split body 62 l' ltac:(lia) (proj2 HW1)) as Hvb. destruct (Valid_scalars _ Hvb) as (v & Hvs & ->).
   exists v, l'. split; [reflexivity|]. split.
-  { rewrite forallb_app in Hx. apply andb_true_iff in Hx. destruct Hx as [_ Hx].
-    assert (N62 : Forall (fun c0 => c0 <> 62) v).
-    { apply (scalars_ne 62 v ltac:(lia)). apply Forall_forall. intros y Hy. rewrite forallb_forall in Hx. specialize (Hx y Hy). lia. }
-    apply forallb_forall. intros y Hy. unfold scalars_ok in Hvs. rewrite Forall_forall in Hvs, N62.
-    change (Chars.scalar y) with (is_scalar y). rewrite (Hvs y Hy). specialize (N62 y Hy). cbn [andb]. lia. }
+  { apply forallb_forall. intros y Hy. unfold scalars_ok in Hvs. rewrite Forall_forall in Hvs.
+    change (Chars.scalar y) with (is_scalar y). exact (Hvs y Hy). }
+  split; [rewrite <- DeclBodyLex.decl_body_ok_utf8s; exact Hb|].
   rewrite blen_app, N.add_assoc. split; [reflexivity|]. apply (WV_cons text _ 62). - apply (WV_app text _ _ _ HW1 Hvb). - lia.
 Qed.
 
@@ -294,10 +289,10 @@ Proof.
             (exists ds qe, dsteps ds c c' /\ s' = st qe [] /\ WV qe [])).
   { intros k Ek Hm. destruct (prefix_b_split _ _ Ek) as (l2 & ->).
     destruct (consume_decl text (st (q + blen ws0) (kw_of k ++ l2))) as [s1| | |] eqn:Ecd; try noerr.
-    destruct (inv_consume_decl k _ _ _ HW1 Ecd) as (body & l3 & -> & Hb & -> & HW3).
+    destruct (inv_consume_decl k _ _ _ HW1 Ecd) as (body & l3 & -> & Hsc & Hb & -> & HW3).
     eapply (STEP (SMarkup ws0 k body) l3 c).
     - cbn [r_sdecl]. rewrite <- !app_assoc. reflexivity.
-    - cbn [wf_sdecl]. rewrite (ws_s _ Hws0), Hb. reflexivity.
+    - cbn [wf_sdecl]. rewrite (ws_s _ Hws0), Hsc, Hb. reflexivity.
     - reflexivity.
     - cbn [r_sdecl]. rewrite !blen_app. change (blen [62]) with 1.
       replace (q + (blen ws0 + (blen (kw_of k) + (blen (utf8s body) + 1)))) with (q + blen ws0 + blen (kw_of k) + blen (utf8s body) + 1) by lia. exact HW3.
